@@ -83,7 +83,7 @@ def _real_dtype(dtype):
 def obj_full(shape, value):
     a = _np.empty(shape, dtype=object)
     a.fill(value)
-    return a
+    return a.view(V.SymArray)
 
 
 def as_obj(a):
@@ -110,7 +110,7 @@ def _map(fn_sym, fn_np, x):
         for i in range(fx.shape[0]):
             e = fx[i]
             fo[i] = fn_sym(e) if is_sym(e) else fn_np(e)
-        return out
+        return out.view(V.SymArray)
     if isinstance(x, (list, tuple)) and has_sym(x):
         return _map(fn_sym, fn_np, _np.array(x, dtype=object))
     return fn_np(x)
@@ -250,6 +250,29 @@ def sym_arctan2(y, x):
     return Angle(SymQuot(xt, rt), SymQuot(yt, rt))
 
 
+_NOWRAP = {"errstate", "printoptions", "vectorize", "frompyfunc", "nditer", "ndindex", "ndenumerate", "dtype", "iinfo", "finfo"}
+
+
+class _ResultView:
+    """a numpy function reached through the facade: object-dtype ndarray results are viewed as V.SymArray (so that a later
+    `.astype(float)` keeps proxies); attributes (ufunc.at / .reduce / .outer ...) are delegated"""
+    __slots__ = ("_f",)
+
+    def __init__(self, f):
+        self._f = f
+
+    def __call__(self, *a, **kw):
+        r = self._f(*a, **kw)
+        if type(r) is _np.ndarray and r.dtype == object:
+            return r.view(V.SymArray)
+        if type(r) is tuple:
+            return tuple(V.as_symarray(e) for e in r)
+        return r
+
+    def __getattr__(self, name):
+        return getattr(self._f, name)
+
+
 class NPFacade:
     """stands in for the `np` global of autoarray modules"""
 
@@ -257,7 +280,10 @@ class NPFacade:
         object.__setattr__(self, "_real", real)
 
     def __getattr__(self, name):
-        return getattr(self._real, name)
+        v = getattr(self._real, name)
+        if ENABLED[0] and callable(v) and not isinstance(v, type) and name not in _NOWRAP:
+            return _ResultView(v)
+        return v
 
     # ---- allocation: float arrays must be able to hold proxies
     def zeros(self, shape, dtype=None, **kw):
@@ -305,17 +331,17 @@ class NPFacade:
 
     def array(self, obj, dtype=None, **kw):
         if dtype is not None and _is_float_dtype(dtype) and has_sym(obj):
-            return _np.array(unwrap(obj), dtype=object, **kw)
+            return V.as_symarray(_np.array(unwrap(obj), dtype=object, **kw))
         if dtype is not None:
             dtype = _real_dtype(dtype)
-        return _np.array(obj, dtype=dtype, **kw)
+        return V.as_symarray(_np.array(obj, dtype=dtype, **kw))
 
     def asarray(self, obj, dtype=None, **kw):
         if dtype is not None and _is_float_dtype(dtype) and has_sym(obj):
-            return _np.asarray(unwrap(obj), dtype=object, **kw)
+            return V.as_symarray(_np.asarray(unwrap(obj), dtype=object, **kw))
         if dtype is not None:
             dtype = _real_dtype(dtype)
-        return _np.asarray(obj, dtype=dtype, **kw)
+        return V.as_symarray(_np.asarray(obj, dtype=dtype, **kw))
 
     # ---- element-wise maths
     def sqrt(self, x, **kw):
